@@ -5,14 +5,14 @@ import "sort"
 // Unit is one test function that explores (part of) a property.
 type Unit struct {
 	Name         string
-	Kind         string    // "e2e": bin/checks.test; "inproc": go test inside /repo with an overlay
-	Pkg          string    // inproc: package pattern relative to /repo
-	Checks       [2]int    // rapid case count per worker: quick, thorough
-	Workers      [2]int    // parallel worker processes: quick, thorough
-	Steps        [2]int    // rapid.steps for state machines (0 = default)
-	Shrink       string    // rapid.shrinktime override
-	Fixed        bool      // not a rapid test (enumeration or frozen cases)
-	Fuzz         bool      // native go fuzzing (thorough only)
+	Kind         string // "e2e": bin/checks.test; "inproc": go test inside /repo with an overlay
+	Pkg          string // inproc: package pattern relative to /repo
+	Checks       [2]int // rapid case count per worker: quick, thorough
+	Workers      [2]int // parallel worker processes: quick, thorough
+	Steps        [2]int // rapid.steps for state machines (0 = default)
+	Shrink       string // rapid.shrinktime override
+	Fixed        bool   // not a rapid test (enumeration or frozen cases)
+	Fuzz         bool   // native go fuzzing (thorough only)
 	FuzzTime     string
 	ThoroughOnly bool
 	Env          []string
@@ -47,7 +47,7 @@ var properties = map[string]Property{}
 func init() {
 	properties["C16"] = Property{
 		Level: "exploration",
-		Rule: "cases = (salt 1-64 bytes, optional seed 8-32 bytes, name drawn from 10 classes: ASCII exported/unexported, underscore-leading, Unicode upper/lower/caseless, import paths, file.go:N positions, single characters, keyword-like) checked for validity, export preservation, agreement with an independent reference implementation and purity under interleaved unrelated hash calls; plus scopes of 2-3000 distinct identifiers under one salt checked for clashes. Non-trivial = at least one fix-up fired (leading digit, dash, underscore, case change) or, for scopes, >=100 names; distinct = (leading base64 symbol, fix-up set, length, identifier?, name class) resp. (scope style, size bucket, seeded).",
+		Rule:  "cases = (salt 1-64 bytes, optional seed 8-32 bytes, name drawn from 10 classes: ASCII exported/unexported, underscore-leading, Unicode upper/lower/caseless, import paths, file.go:N positions, single characters, keyword-like) checked for validity, export preservation, agreement with an independent reference implementation and purity under interleaved unrelated hash calls; plus scopes of 2-3000 distinct identifiers under one salt checked for clashes. Non-trivial = at least one fix-up fired (leading digit, dash, underscore, case change) or, for scopes, >=100 names; distinct = (leading base64 symbol, fix-up set, length, identifier?, name class) resp. (scope style, size bucket, seeded).",
 		Assumptions: []string{
 			"the reference model was written from the documented algorithm (hash.go comments), not derived from the implementation's output",
 			"a clash is only a violation when the two names' raw hash prefixes differ (a genuine sha256 prefix collision is allowed by the statement)",
@@ -63,8 +63,8 @@ func init() {
 
 func init() {
 	properties["C01"] = Property{
-		Level: "exploration",
-		Rule: "cases = (generated multi-package program from the feature library, garble configuration from {default, -tiny, -literals, -seed, combinations, GOGARBLE=module-only}, command build|run|test, 1-3 runtime argument vectors); oracle = differential against the regular toolchain on stdout, exit status, stderr and test verdicts. Non-trivial = at least two packages and at least one feature used across a package boundary; distinct = (feature set, configuration class, command).",
+		Level:       "exploration",
+		Rule:        "cases = (generated multi-package program from the feature library, garble configuration from {default, -tiny, -literals, -seed, combinations, GOGARBLE=module-only}, command build|run|test, 1-3 runtime argument vectors); oracle = differential against the regular toolchain on stdout, exit status, stderr and test verdicts. Non-trivial = at least two packages and at least one feature used across a package boundary; distinct = (feature set, configuration class, command).",
 		Assumptions: commonAssumptions,
 		ReplayUnit:  "TestC01Replay",
 		Units: []Unit{
@@ -76,7 +76,7 @@ func init() {
 func init() {
 	properties["C20"] = Property{
 		Level: "exploration",
-		Rule: "cases = argument vectors (0-6 flags drawn from every flag documented by `go help build|testflag|test|run`, in -f, -f v, -f=v and --f forms, with values that look like flags, paths or garble flags, followed by 0-3 package/file arguments) compared with a reference splitter built at run time from the go command's help text; plus argv observed at a stub go command for whole garble invocations. Non-trivial = a boolean flag directly followed by a non-flag argument and a value-taking flag in separated form; distinct = (flag form kinds, flag count, argument count).",
+		Rule:  "cases = argument vectors (0-6 flags drawn from every flag documented by `go help build|testflag|test|run`, in -f, -f v, -f=v and --f forms, with values that look like flags, paths or garble flags, followed by 0-3 package/file arguments) compared with a reference splitter built at run time from the go command's help text; plus argv observed at a stub go command for whole garble invocations. Non-trivial = a boolean flag directly followed by a non-flag argument and a value-taking flag in separated form; distinct = (flag form kinds, flag count, argument count).",
 		Assumptions: []string{
 			"the go command's help text is the specification of which flags take a value (-o is added from the prose of `go help build`)",
 			"flags after the first package argument are outside the generated domain except as opaque package arguments",
@@ -95,7 +95,7 @@ func init() {
 func init() {
 	properties["C05"] = Property{
 		Level: "exploration",
-		Rule: "cases = literals (bytes of length 0..2300 biased to the boundaries 7/8/9, 255/256/257, 2047/2048/2049; contents: all byte values, runs, quotes/backslashes, invalid UTF-8) x form {string, typed string, folded concatenation, []byte, [N]byte, &[]byte, &[N]byte} x syntactic context (13 kinds incl. const declarations, array lengths and case labels) x obfuscator {simple, swap, split, shuffle, seed, garble's own choice} x math/rand seed; each batch is obfuscated with literals.Obfuscate, printed, compiled with the real compiler and run, and every carrier's run-time bytes are compared with the bytes written into the source. End-to-end: generated programs built with garble -literals and compared with the regular build. evaluations = literal x seed pairs. Non-trivial = length inside the obfuscation window [8, 2048] and not a typed/const form that stays a constant; distinct = (obfuscator, form, context, length bucket).",
+		Rule:  "cases = literals (bytes of length 0..2300 biased to the boundaries 7/8/9, 255/256/257, 2047/2048/2049; contents: all byte values, runs, quotes/backslashes, invalid UTF-8) x form {string, typed string, folded concatenation, []byte, [N]byte, &[]byte, &[N]byte} x syntactic context (13 kinds incl. const declarations, array lengths and case labels) x obfuscator {simple, swap, split, shuffle, seed, garble's own choice} x math/rand seed; each batch is obfuscated with literals.Obfuscate, printed, compiled with the real compiler and run, and every carrier's run-time bytes are compared with the bytes written into the source. End-to-end: generated programs built with garble -literals and compared with the regular build. evaluations = literal x seed pairs. Non-trivial = length inside the obfuscation window [8, 2048] and not a typed/const form that stays a constant; distinct = (obfuscator, form, context, length bucket).",
 		Assumptions: []string{
 			"expected values come from the generator, never from garble",
 			"split, shuffle and seed are forced only on literals up to 256 bytes, the largest size at which garble itself selects them",
@@ -104,6 +104,21 @@ func init() {
 		ReplayUnit: "TestVerifC05Replay",
 		Units: []Unit{
 			{Name: "TestVerifC05Batch", Kind: "inproc", Pkg: "./internal/literals", Checks: [2]int{15, 120}, Workers: [2]int{4, 12}, Shrink: "60s"},
+		},
+	}
+}
+
+func init() {
+	properties["C02"] = Property{
+		Level: "exploration",
+		Rule:  "cases = generated programs whose every identifier, file, directory, package and module name carries a unique marker, built with garble under drawn configurations, from drawn source directories (spaces, dots, nesting) and TMPDIR locations (also inside the source tree); each marker is one evaluation: it is scored only if the regular (non-trimpath) binary contains it (positive control) and the statement lists no exception for it; then it must be absent from the garbled binary. Paths (module, import paths, source dir, TMPDIR, caches) and build metadata (go version -m, build ID, ELF symbol/debug sections, Go version string) are checked per binary. Non-trivial = scored marker; distinct = (identifier kind, exported?, feature, configuration class).",
+		Assumptions: append([]string{
+			"programs are reflection-free by construction (values are printed through a type switch, not fmt); the one feature that hands its types to fmt is treated as a documented exception",
+			"markers are unique 8+ character strings, so a chance occurrence in unrelated bytes is negligible",
+		}, commonAssumptions...),
+		ReplayUnit: "TestC02Replay",
+		Units: []Unit{
+			{Name: "TestC02", Kind: "e2e", Checks: [2]int{8, 50}, Workers: [2]int{3, 8}},
 		},
 	}
 }
